@@ -43,7 +43,8 @@ class SpecWorker:
         self.worker = process_obj._target
         self.maxtasks = self.worker.maxtasks
         self.counter = self.worker.on_ready_counter
-        self.phase = 'idle'        # idle | acked | quota | dead
+        self.synq = getattr(self.worker, 'synq', None)
+        self.phase = 'idle'        # idle | syn | acked | quota | dead
         self.task = None           # (job, i, fun, args, kwargs)
         self.completed = 0
         self.term = False          # TERM delivered, not yet acted upon
@@ -51,7 +52,8 @@ class SpecWorker:
         self.quota_time = None
         self.executed = []         # (job, i)
         self.status = None
-        self.wtrace = []           # worker-local trace (conformance, L1)
+        # worker-local trace (conformance, L1)
+        self.wtrace = [('synack',)] if self.synq is not None else []
 
     @property
     def alive(self):
@@ -72,6 +74,22 @@ def _frames(buf):
             break
         k += 4 + n
     return out
+
+
+class SynPool(bp.Pool):
+    """What billiard leaves to the embedder when ``synack=True`` (Celery's
+    AsynPool does the same): one sync queue per worker process, and
+    ``send_ack`` writing the parent's answer to the accepting worker's."""
+
+    def get_process_queues(self):
+        return self._inqueue, self._outqueue, self._ctx.SimpleQueue()
+
+    def send_ack(self, response, pid, job, fd):
+        env = _l2_env[0]
+        env.syn_sent.append((response, pid, job, fd))
+        w = env.workers.get(pid)
+        if w is not None and w.synq is not None:
+            w.synq.put((response, (job,)))
 
 
 class Env:
@@ -112,8 +130,9 @@ class Env:
         self.nprocs = cfg.get('procs', 2)
         pk['semaphore'] = vproc.use_scheduler_aware_putlock(
             bp.LaxBoundedSemaphore(self.nprocs))
-        self.pool = bp.Pool(self.nprocs, threads=False,
-                            context=vproc.VPoolContext(), **pk)
+        self.syn_sent = []           # handshake answers of the parent
+        self.pool = (SynPool if pk.get('synack') else bp.Pool)(
+            self.nprocs, threads=False, context=vproc.VPoolContext(), **pk)
         rs = self.pool.restart_state
         env = self
         orig_step = rs.step
@@ -206,7 +225,7 @@ class Env:
         if notice:
             raw = status if status in (0, 1, bp.EX_RECYCLE) else -(256 - status)
             self._outq_put(w, (DEATH, (w.pid, raw)))
-        if w.phase == 'acked':
+        if w.phase in ('acked', 'syn'):
             j, i = w.task[0], w.task[1]
             part = self.jobs[j]['parts'].setdefault(i, {})
             part.update(state='lost', pid=w.pid, status=status,
@@ -219,6 +238,9 @@ class Env:
     @property
     def inbuf(self):
         return self.world.fds[self.pool._inqueue._reader.fileno()][0].rbuf
+
+    def synbuf(self, w):
+        return self.world.fds[w.synq._reader.fileno()][0].rbuf
 
     @property
     def outbuf(self):
@@ -257,6 +279,8 @@ class Env:
             if w.phase == 'idle' and indata:
                 evs.append(('run', w.pid) if A.get('atomic_worker')
                            else ('take', w.pid))
+            if w.phase == 'syn' and self.synbuf(w).data:
+                evs.append(('syn', w.pid))
             if w.phase == 'acked':
                 evs.append(('finish', w.pid))
                 if w.soft and A.get('soft_raise'):
@@ -281,6 +305,10 @@ class Env:
             if A.get('discard') and rec['kind'] == 'apply' and \
                     not rec['discarded'] and not rec['h'].ready():
                 evs.append(('discard', j))
+            if A.get('cancel') and rec['kind'] == 'apply' and \
+                    not rec.get('cancelled') and not rec['discarded'] and \
+                    not rec['h'].ready():
+                evs.append(('cancel', j))
             if A.get('terminate_job') and rec['kind'] == 'apply' and \
                     not rec.get('targeted') and not rec['h'].ready() and \
                     rec['h']._accepted and rec['h']._worker_pid in [
@@ -411,6 +439,8 @@ class Env:
         def mk(tag):
             def f(*a, **kw):
                 cb[j].append((tag, self.world.now))
+                if t.get('acc_raises') and tag == 'acc':
+                    raise ValueError('accept callback failed')
                 if t.get('cb_raises') and tag in ('ok', 'err'):
                     raise tasks.CallbackError('callback failed (propagated)')
             return f
@@ -492,6 +522,11 @@ class Env:
     def ev_discard(self, j):
         self.jobs[j]['h'].discard()
         self.jobs[j]['discarded'] = True
+
+    def ev_cancel(self, j):
+        # ApplyResult._cancel(): "only works if synack is used"
+        self.jobs[j]['h']._cancel()
+        self.jobs[j]['cancelled'] = True
 
     def ev_tjob(self, j):
         rec = self.jobs[j]
@@ -597,14 +632,32 @@ class Env:
             return
         typ, (job, i, fun, args, kwargs) = msg
         w.task = (job, i, fun, args, kwargs)
-        w.phase = 'acked'
+        w.phase = 'acked' if w.synq is None else 'syn'
         w.soft = 0
         if job < len(self.jobs):
             self.jobs[job]['parts'].setdefault(i, {}).update(
                 state='taken', pid=pid, taken_at=self.world.now)
             if self.jobs[job]['kind'] == 'apply':
                 self.jobs[job]['acked_at'] = self.world.now
-        self._outq_put(w, (ACK, (job, i, self.world.now, pid, None)))
+        self._outq_put(w, (ACK, (job, i, self.world.now, pid,
+                                 w.synq and w.synq._writer.fileno())))
+
+    def ev_syn(self, pid):
+        """The worker reads the parent's answer to its accept message."""
+        w = self.workers[pid]
+        with vos.as_process(pid):
+            typ, _args = pickle.loads(w.synq.get_payload())
+        job, i = w.task[:2]
+        if typ == NACK:
+            # refused: not executed, not counted, next job (L1)
+            w.wtrace.append(('refused',))
+            if job < len(self.jobs):
+                self.jobs[job]['parts'].setdefault(i, {}).update(
+                    state='refused', pid=pid)
+            w.task = None
+            w.phase = 'idle'
+        else:
+            w.phase = 'acked'
 
     def ev_run(self, pid):
         self.ev_take(pid)
@@ -660,6 +713,13 @@ class Env:
         self.last_delivered = fr[0] if fr else None
         if self.outq_times:
             self.outq_times.popleft()
+        hs = None
+        m = self.last_delivered
+        if m and m[0] == ACK and m[1][4] is not None and \
+                m[1][0] < len(self.jobs):
+            rec = self.jobs[m[1][0]]
+            hs = (rec, len(self.syn_sent), bool(rec.get('cancelled')),
+                  len([c for c in self.cb[m[1][0]] if c[0] == 'acc']))
         try:
             self.pool.handle_result_event()
         except tasks.CallbackError as exc:
@@ -667,6 +727,38 @@ class Env:
                 raise
             # callbacks_propagate: the embedder sees the callback's error
             self.log.append(('callback-error-propagated',))
+        if hs is not None:
+            self._handshake(m, *hs)
+
+    def _handshake(self, m, rec, n0, cancelled, nacc0):
+        """C03, parent half: the accept message of a job is answered once,
+        to the worker that sent it; NACK exactly when the job was cancelled
+        before this acceptance (the accept callback then does not run) or
+        the accept callback failed."""
+        job, i, t_acc, pid, fd = m[1]
+        if rec['kind'] != 'apply' or rec['discarded']:
+            return
+        sent = self.syn_sent[n0:]
+        nacc = len([c for c in self.cb[job] if c[0] == 'acc']) - nacc0
+        refuse = cancelled or bool(rec['t'].get('acc_raises'))
+        want = [(NACK if refuse else ACK, pid, job, fd)]
+        if sent != want:
+            raise Violation(
+                'accept message of job %d (cancelled before: %r) from '
+                'worker %r was answered %r, expected %r' % (
+                    job, cancelled, pid, sent, want))
+        if cancelled and nacc:
+            raise Violation('accept callback ran for job %d, which was '
+                            'cancelled before acceptance' % job)
+        if not cancelled and nacc != 1:
+            raise Violation('accept callback ran %d times when job %d was '
+                            'accepted' % (nacc, job))
+        if refuse:
+            rec['refused'] = True
+        elif rec['h'].worker_pids() != [pid]:
+            raise Violation('job %d was accepted by worker %r but the handle '
+                            'names %r as its owner' % (
+                                job, pid, rec['h'].worker_pids()))
 
     def ev_tick(self):
         pool = self.pool
@@ -752,6 +844,11 @@ class Env:
         justifies for *this* job (C01: own outcome, no foreign failure)."""
         h = rec['h']
         parts = rec['parts']
+        if rec.get('refused') and not rec['t'].get('acc_raises'):
+            self._flag('job %d was cancelled before acceptance and refused '
+                       '(never run), yet it resolved as %r (event %r)' % (
+                           j, out, ev))
+            return
         if out[0] == 'ok':
             if rec['kind'] == 'apply':
                 exp = rec['expect']
@@ -867,7 +964,9 @@ class Env:
                       w.term, w.soft, rel(w.quota_time), w.counter.value,
                       getattr(p, '_controlled_termination', False),
                       getattr(p, '_job_terminated', False),
-                      p._popen.returncode))
+                      p._popen.returncode,
+                      w.synq is not None and tuple(
+                          m[0] for m in _frames(self.synbuf(w)))))
         J = []
         for j, rec in enumerate(self.jobs):
             h = rec['h']
@@ -878,7 +977,8 @@ class Env:
                 (repr(i), p.get('state'), nm(p.get('pid')),
                  p.get('status'))
                 for i, p in rec['parts'].items())) + (
-                    rec.get('targeted', False), rec.get('hit', False))
+                    rec.get('targeted', False), rec.get('hit', False),
+                    rec.get('cancelled', False), rec.get('refused', False))
             try:
                 if rec['kind'] == 'apply':
                     st = (h._accepted, nm(h._worker_pid),
@@ -968,6 +1068,9 @@ class Env:
                     self.apply(('term_react', w.pid))
                     did = True
                     continue
+                if w.phase == 'syn' and self.synbuf(w).data:
+                    self.apply(('syn', w.pid))
+                    did = True
                 if w.phase == 'acked':
                     self.apply(('finish', w.pid))
                     did = True
@@ -1013,7 +1116,7 @@ class Env:
         out = []
         for j, rec in enumerate(self.jobs):
             h = rec['h']
-            if h is None or rec['discarded']:
+            if h is None or rec['discarded'] or rec.get('refused'):
                 continue
             if rec['kind'] in ('imap', 'imap_unordered'):
                 if not h._ready:
